@@ -11,6 +11,7 @@ use crate::util::*;
 pub fn dispatch(op: &str, _args: &[String]) -> bool {
     match op {
         "c13-shift" => run_batch(op_shift),
+        "c13-light" => run_batch(op_light),
         _ => return false,
     }
     true
@@ -170,7 +171,8 @@ fn op_shift(payload: &str) -> String {
         }
     }
     // class predicate `layer-origin-negative`: a layer with filters or clamped to max_bbox (content reaches the
-    // layer's edge) is placed at a negative x or y in either rendering
+    // layer's edge) is placed at a negative x or y in either rendering - and the case is not one of class
+    // clamped-filter-region-origin (region_off below), which is reported separately
     let neg_origin = ea.iter().chain(eb.iter()).any(|e| {
         if !e.starts_with("{\"ev\":\"layer\"") {
             return false;
@@ -188,11 +190,44 @@ fn op_shift(payload: &str) -> String {
             None => false,
         }
     });
+    // class predicate `clamped-filter-region-origin`: in either rendering a filtered layer is clamped to max_bbox (its box
+    // touches the clamp box) AND a filter event on a source of that layer's size has a region whose origin is not the layer
+    // origin (0,0) - the region-sized result is then drawn displaced by the region origin
+    let region_off = [&ea, &eb].iter().any(|evs| {
+        let clamped_sizes: Vec<(i64, i64)> = evs
+            .iter()
+            .filter(|e| e.starts_with("{\"ev\":\"layer\"") && !e.contains("\"filters\":0,"))
+            .filter_map(|e| {
+                let (_, ib) = layer_fields(e)?;
+                let m = max_of(e)?;
+                if ib[0] <= m[0] || ib[1] <= m[1] || ib[0] + ib[2] >= m[0] + m[2] || ib[1] + ib[3] >= m[1] + m[3] {
+                    Some((ib[2], ib[3]))
+                } else {
+                    None
+                }
+            })
+            .collect();
+        evs.iter().filter(|e| e.starts_with("{\"ev\":\"filter\"")).any(|e| {
+            let nums = |key: &str| -> Vec<i64> {
+                match e.find(key) {
+                    Some(b) => {
+                        let b = b + key.len();
+                        let en = e[b..].find(']').map(|x| x + b).unwrap_or(b);
+                        e[b..en].split(',').filter_map(|x| x.trim().parse().ok()).collect()
+                    }
+                    None => Vec::new(),
+                }
+            };
+            let rg = nums("\"region\":[");
+            let sz = nums("\"source\":[");
+            rg.len() == 4 && sz.len() == 2 && (rg[0] != 0 || rg[1] != 0) && clamped_sizes.contains(&(sz[0], sz[1]))
+        })
+    });
     let fbad = frame_bad(&tree, w, h, ts_a) + frame_bad(&tree, w, h, ts_b);
     let flip = ulp_flip(&ea, &eb);
     let mut out = format!(
-        "{{\"neg_origin\":{},\"frame_bad\":{},\"ulp_flip\":{},\"filter_layers\":{},\"n0\":{},\"n1\":{},\"n8\":{},\"n32\":{},\"n64\":{},\"max\":{},\"nonblank\":{},\"outside\":{},\"layersA\":{},\"layersB\":{},\"moved\":{},\"not_moved\":{},\"W\":{},\"H\":{},\"scale\":{},\"ts\":[{},{},{},{},{},{}]",
-        neg_origin, fbad, flip, ea.iter().filter(|e| e.starts_with("{\"ev\":\"filter\"")).count(), n0, n1, n8, n32, n64, mx, nonblank, outside, count_layers(&ea), count_layers(&eb), moved, not_moved, w, h, s,
+        "{{\"neg_origin\":{},\"region_off\":{},\"frame_bad\":{},\"ulp_flip\":{},\"filter_layers\":{},\"n0\":{},\"n1\":{},\"n8\":{},\"n32\":{},\"n64\":{},\"max\":{},\"nonblank\":{},\"outside\":{},\"layersA\":{},\"layersB\":{},\"moved\":{},\"not_moved\":{},\"W\":{},\"H\":{},\"scale\":{},\"ts\":[{},{},{},{},{},{}]",
+        neg_origin && !region_off, region_off, fbad, flip, ea.iter().filter(|e| e.starts_with("{\"ev\":\"filter\"")).count(), n0, n1, n8, n32, n64, mx, nonblank, outside, count_layers(&ea), count_layers(&eb), moved, not_moved, w, h, s,
         ts_a.sx, ts_a.ky, ts_a.kx, ts_a.sy, ts_a.tx, ts_a.ty
     );
     if let Some((x, y)) = first {
@@ -208,4 +243,49 @@ fn op_shift(payload: &str) -> String {
     }
     out.push('}');
     out
+}
+
+// ------------------------------------------------------------------------------------------------
+/// c13-light  payload `kind;x,y,z,pax,pay,paz;rx,ry,rw,rh;sx,ky,kx,sy,tx,ty` (kind = point | spot; all numbers are
+/// multiples of 1/4 of moderate size, so every f32 operation of the mapping is exact): runs the real
+/// filter::transform_light_source and returns 16 x (x, y, points_at_x, points_at_y) as integers (`exact` = they are).
+fn op_light(payload: &str) -> String {
+    let f: Vec<&str> = payload.trim().split(';').collect();
+    if f.len() != 4 {
+        return "{\"error\":\"bad payload\"}".into();
+    }
+    let l: Vec<f32> = f[1].split(',').filter_map(|x| x.parse().ok()).collect();
+    let r: Vec<i32> = f[2].split(',').filter_map(|x| x.parse().ok()).collect();
+    let t: Vec<f32> = f[3].split(',').filter_map(|x| x.parse().ok()).collect();
+    if l.len() != 6 || r.len() != 4 || t.len() != 6 {
+        return "{\"error\":\"bad numbers\"}".into();
+    }
+    let region = match tiny_skia::IntRect::from_xywh(r[0], r[1], r[2] as u32, r[3] as u32) {
+        Some(v) => v,
+        None => return "{\"error\":\"bad region\"}".into(),
+    };
+    let ts = tiny_skia::Transform::from_row(t[0], t[1], t[2], t[3], t[4], t[5]);
+    let src = if f[0] == "point" {
+        usvg::filter::LightSource::PointLight(usvg::filter::PointLight { x: l[0], y: l[1], z: l[2] })
+    } else {
+        usvg::filter::LightSource::SpotLight(usvg::filter::SpotLight {
+            x: l[0],
+            y: l[1],
+            z: l[2],
+            points_at_x: l[3],
+            points_at_y: l[4],
+            points_at_z: l[5],
+            specular_exponent: usvg::PositiveF32::new(1.0).unwrap(),
+            limiting_cone_angle: None,
+        })
+    };
+    let out = resvg::verif_hooks::kernels::transform_light_source(src, region, ts);
+    let v: [f32; 4] = match out {
+        usvg::filter::LightSource::PointLight(p) => [p.x, p.y, 0.0, 0.0],
+        usvg::filter::LightSource::SpotLight(p) => [p.x, p.y, p.points_at_x, p.points_at_y],
+        _ => return "{\"error\":\"kind changed\"}".into(),
+    };
+    let q: Vec<f64> = v.iter().map(|x| *x as f64 * 16.0).collect();
+    let exact = q.iter().all(|x| x.is_finite() && x.fract() == 0.0 && x.abs() < 1e15);
+    format!("{{\"v\":[{}],\"exact\":{}}}", q.iter().map(|x| format!("{}", *x as i64)).collect::<Vec<_>>().join(","), exact)
 }
